@@ -163,7 +163,7 @@ func (b *bmcSys) outcomeSpecs(l *bloc) []*outcome {
 		add(&outcome{name: "recv-closed", arm: i, chanG: f.And(bc.closed, f.Eq(bc.length, f.IntC(0))), chans: []*Chan{a.ch}})
 	}
 	switch l.kind {
-	case opStart, opTau:
+	case opStart, opTau, opStep:
 		add(&outcome{name: "go", chanG: f.True()})
 	case opSend, opRecv, opTrySend:
 		armOutcomes(0, l.arms[0])
@@ -230,6 +230,10 @@ func (b *bmcSys) bind(m *Machine, l *bloc, o *outcome) {
 	fr := m.top()
 	if l.kind == opTau {
 		m.cut = false
+		return
+	}
+	if l.kind == opStep {
+		m.skipVis = true // the pending instruction is executed now, as part of this step
 		return
 	}
 	instr := l.instr
